@@ -127,6 +127,15 @@ theorem C14_array_types_same_set (elementTypes : List String) :
   rw [arrayTypes, mem_dedupFirst]
   simp
 
+/-! ### 2c. `GIRParser.parse`: which units are extern mock code — live code -/
+
+/-- **C14 (workspace location).** Whether a unit is preprocessed as extern mock code does not depend on the
+unit's path, hence not on where the workspace lies: the live code consults the `is_extern` flag only.
+(The statement is immediate from the model; its content is that the model — checked against the code on
+every harvested `parse` call — takes no path.) -/
+theorem C14_mock_unit_location_independent (isExtern : Bool) (path₁ path₂ : String) :
+    mockUnit isExtern path₁ = mockUnit isExtern path₂ := rfl
+
 /-! ### 3. `GeneralLoader.convert_active_bundle_to_dataframe` -/
 
 /-- **C14 (bundle export).** The rows of an exported bundle do not depend on the order in which the items
@@ -328,6 +337,13 @@ theorem C14_unfixed_counterexample_array_types :
     arrayTypes0 ["number", "string"] ≠ arrayTypes0 ["string", "number"] := by decide
 
 example : arrayTypes ["number", "string", "number", "identifier"] = ["number", "string", "identifier"] := by decide
+
+/-- **Pinned commit, site 5**: the same user source `proj/a.py`, analysed into the workspace `w` and into the
+workspace `a/lian_workspace/externs/w`: only the second is taken for extern mock code (and rewritten by
+`replace_percent_symbol_in_mock`). -/
+theorem C14_unfixed_counterexample_mock_location :
+    mockUnit0 "lian_workspace/externs" "w/lian_workspace/src/proj/a.py" = false ∧
+    mockUnit0 "lian_workspace/externs" "a/lian_workspace/externs/w/src/proj/a.py" = true := by decide
 
 /-- **Live code, not order-independent** (monitored, no failing input known): `CallSite.__lt__` compares
 (caller_id, call_stmt_id) only, so two call sites of one call statement with different callees are not
